@@ -83,7 +83,7 @@ class Harness:
                     dom = (None,) + dom
                 out[k] = Lazy(dom, tag)
             elif a.startswith("ChecksumType"):
-                out[k] = Lazy((E("ChecksumType", "NULL_CHECKSUM"), E("ChecksumType", "$OTHER")), tag)
+                out[k] = Lazy(tuple(E("ChecksumType", m) for m in ["NULL_CHECKSUM"] + sorted(self.prog.compared_members("ChecksumType") - {"NULL_CHECKSUM"})) + (E("ChecksumType", "$OTHER"),), tag)
             elif a.startswith("list[") and "None" in a:
                 out[k] = Lazy((None, UnkIter(("a", tag), 0, "any")), tag)
             elif "None" in [x.strip() for x in a.split("|")]:
@@ -305,7 +305,7 @@ class Harness:
             if k == "$fresh":
                 return False
             return v
-        if isinstance(v, E) and v.cls == "ConditionCode" and v.name not in ("NO_ERROR", "$OTHER"):
+        if isinstance(v, E) and v.cls == "ConditionCode" and v.name not in ("NO_ERROR", "$OTHER") and v.name not in self.prog.compared_members("ConditionCode"):
             return E("ConditionCode", "$OTHER")
         if v is None or isinstance(v, (bool, E, Lazy, Dct, FreeDict)):
             return v
